@@ -439,6 +439,10 @@ def plan(tier, seed):
         for b_act in ('wrong-first', 'close', 'probe-then-wrong',
                       'probe-then-close', 'probe-then-upgrade')
         for a_end in ('client-close', 'disconnect')]
+    shards[2]['compete'] = [
+        {'competefail': [srv, ap, ah, bp, bh]} for srv in ('T', 'A', 'H')
+        for ap in (0, 1) for ah in ('wrong', 'close')
+        for bp in (0, 1) for bh in ('wrong', 'close')]
     shards[0]['nodriver'] = [{'srv': x, 'when': w} for x in SRV[:2]
                              for w in ('before', 'after')]
     return shards
@@ -452,7 +456,10 @@ def run_compete(rec, case):
     every message arrives on that socket."""
     from vf.checks import c15
     rec.count('competing_upgrade_attempts')
-    c15.run_compete(rec, case)
+    if 'competefail' in case:
+        c15.run_compete_fail(rec, case)
+    else:
+        c15.run_compete(rec, case)
 
 
 def run_shard(spec):
@@ -471,7 +478,7 @@ def replay(case):
     if 'nodriver' in case:
         run_nodriver(rec, case['nodriver'])
         return rec.violations
-    if 'compete' in case:
+    if 'compete' in case or 'competefail' in case:
         run_compete(rec, case)
         return rec.violations
     run_cell(rec, tuple(case['cell']))
